@@ -29,9 +29,33 @@ func buildPool(p *Pool) *poolObjs {
 		o.floats = append(o.floats, parseFloat(f))
 	}
 	for _, s := range p.Bytes {
-		o.bytes = append(o.bytes, unhex(s))
+		// read-only input bytes several callers pass to the library at the
+		// same time; the spare capacity holds sentinels and is digested too
+		raw := unhex(s)
+		full := make([]byte, len(raw)+sharedSpare)
+		copy(full, raw)
+		for i := len(raw); i < len(full); i++ {
+			full[i] = 0xA5
+		}
+		o.bytes = append(o.bytes, full[:len(raw)])
 	}
 	return o
+}
+
+const sharedSpare = 8
+
+// sharedView returns the view of a shared byte object that holds exactly in
+// (a suffix of the object), or nil.
+func (o *poolObjs) sharedView(in []byte) []byte {
+	if o == nil || len(in) == 0 {
+		return nil
+	}
+	for _, pb := range o.bytes {
+		if len(pb) >= len(in) && bytes.Equal(pb[len(pb)-len(in):], in) {
+			return pb[len(pb)-len(in):]
+		}
+	}
+	return nil
 }
 
 // render gives a canonical text of every shared object (for reports).
@@ -102,7 +126,7 @@ func (o *poolObjs) hash() uint64 {
 		}
 	}
 	for _, y := range o.bytes {
-		for _, c := range y {
+		for _, c := range y[:cap(y)] {
 			h ^= uint64(c)
 			h *= fnvPrime
 		}
@@ -301,6 +325,17 @@ func guard(in []byte) ([]byte, func() string) {
 // get fresh memory. Either way the spare capacity holds sentinels and the
 // returned function reports writes by the callee.
 func (x *Ctx) input(in []byte) ([]byte, func() string) {
+	if s := x.pool.sharedView(in); s != nil {
+		// the same memory is an input of calls by other tasks: nobody may
+		// write it, not even for the duration of a call (the digest of the
+		// shared objects is compared at every context switch)
+		return s, func() string {
+			if !bytes.Equal(s, in) {
+				return fmt.Sprintf("input bytes shared with other callers modified: %x -> %x", in, s)
+			}
+			return ""
+		}
+	}
 	if in == nil || len(x.results)%2 == 1 {
 		return guard(in)
 	}
